@@ -243,6 +243,46 @@ theorem ranges_time_overlap (s : Schedule) (g : Graph) (ct : Nat) (res : NpuResu
     (covers_weaken (hcj y hyj (Or.inr hyt)) (Int.le_refl _) (by omega))
     (by omega) (by omega)
 
+/-- **ranges_tight** (the converse of `mark_usage_covers`). Starting from the empty graph, start and end of every
+    extracted range are the sentinels of `LiveRange.__init__` (a range that was created but never marked) or are
+    attained by one `mark_usage` of the walk *on that very range* (`Ev.Hits`: the event's tensor resolves to range `i`
+    in the final graph).  `npuWalk_event_origin` (Lemmas) adds that every graph operation of the walk belongs to one
+    scheduled operation at its time index or is the final mark of a subgraph output.  Together with
+    `mark_usage_covers`: a range is exactly the hull of the windows marked on it, so two ranges overlap in time
+    **iff** the hulls of their marked windows do. -/
+theorem ranges_tight (s : Schedule) (ct : Nat) (res : NpuResult) (h : extractNpu s Graph.empty ct = .ok res)
+    (i : Nat) (r : LR) (hr : res.graph.lrs[i]? = some r) :
+    (r.start = startInit ∨ ∃ e ∈ (npuWalk s ct).events, ∃ lo hi, e.Hits res.graph i lo hi ∧ lo = r.start) ∧
+    (r.end_ = endInit ∨ ∃ e ∈ (npuWalk s ct).events, ∃ lo hi, e.Hits res.graph i lo hi ∧ hi = r.end_) := by
+  obtain ⟨g', hrun, rfl⟩ := extractNpu_ok h
+  have ht := run_tight Graph.WF_empty hrun i r hr
+  refine ⟨?_, ?_⟩
+  · rcases ht.1 with ⟨r0, hr0, _⟩ | ⟨_, hs⟩ | ⟨lo, hi, ⟨e, he, hh⟩, hs⟩
+    · simp [Graph.empty] at hr0
+    · exact Or.inl hs
+    · exact Or.inr ⟨e, he, lo, hi, hh, hs⟩
+  · rcases ht.2 with ⟨r0, hr0, _⟩ | ⟨_, hs⟩ | ⟨lo, hi, ⟨e, he, hh⟩, hs⟩
+    · simp [Graph.empty] at hr0
+    · exact Or.inl hs
+    · exact Or.inr ⟨e, he, lo, hi, hh, hs⟩
+
+/-- the same for the walk over the CPU passes (what tensor allocation uses) -/
+theorem cpu_ranges_tight (c : CpuGraph) (ct : Nat) (res : CpuResult) (h : extractCpu c Graph.empty ct = .ok res)
+    (i : Nat) (r : LR) (hr : res.graph.lrs[i]? = some r) :
+    (r.start = startInit ∨ ∃ e ∈ (cpuWalk c ct).events, ∃ lo hi, e.Hits res.graph i lo hi ∧ lo = r.start) ∧
+    (r.end_ = endInit ∨ ∃ e ∈ (cpuWalk c ct).events, ∃ lo hi, e.Hits res.graph i lo hi ∧ hi = r.end_) := by
+  obtain ⟨g', hrun, rfl⟩ := extractCpu_ok h
+  have ht := run_tight Graph.WF_empty hrun i r hr
+  refine ⟨?_, ?_⟩
+  · rcases ht.1 with ⟨r0, hr0, _⟩ | ⟨_, hs⟩ | ⟨lo, hi, ⟨e, he, hh⟩, hs⟩
+    · simp [Graph.empty] at hr0
+    · exact Or.inl hs
+    · exact Or.inr ⟨e, he, lo, hi, hh, hs⟩
+  · rcases ht.2 with ⟨r0, hr0, _⟩ | ⟨_, hs⟩ | ⟨lo, hi, ⟨e, he, hh⟩, hs⟩
+    · simp [Graph.empty] at hr0
+    · exact Or.inl hs
+    · exact Or.inr ⟨e, he, lo, hi, hh, hs⟩
+
 /-- The time-overlap test of this model is the one C05's theorems are stated for (`Alloc.timeOverlap` over `Nat`),
     on ranges that have been marked (start and end non-negative). -/
 theorem timeOverlap_is_allocators (a b : LR) (ha : 0 ≤ a.start ∧ 0 ≤ a.end_) (hb : 0 ≤ b.start ∧ 0 ≤ b.end_)
